@@ -192,6 +192,7 @@ def oracle_all(codes, cfgs, mask=None, do_flags=True):
             f13 += oracle_good(ph, step, edge, mask, good)
         except Exception as e:
             f12.append(('get_cycle_vector(return_good=True)', 'detection failed: %s: %s' % (type(e).__name__, e)))
+            f13.append(('get_cycle_vector(return_good=True)', 'good-cycle selection failed: %s: %s' % (type(e).__name__, e)))
         if do_flags and mask is None and wraps_of(ph, step):
             fl = impl_flags(pha, step, edge)
             if fl[0] == -2:
